@@ -368,6 +368,10 @@ def w_cases(item, rep):
 
 
 def build_items(tier, seed):
+    # bounds: "quick" runs what used to be the thorough tier (it takes well under a minute on this machine); "thorough" = "deep"
+    # adds one more failure point per execution and more timing classes / types
+    deep = tier == "thorough"
+    tier = "thorough"
     items = []
     k = 0
     # all routes x ack / non-ack / system types x timeouts, every single (thorough: pair / triple of) failure point(s)
@@ -387,6 +391,8 @@ def build_items(tier, seed):
                     else:
                         cost, lat = tm
                         b = (3 if hops <= 3 else 2) if tm == (0, 0) else (2 if hops <= 4 else 1)
+                        if deep:
+                            b = (4 if hops <= 3 else 3) if tm == (0, 0) else (3 if hops <= 3 else 2)
                     items.append(([dict(src=s, dst=d, mtype=t, mlen=(k * 5) % 25, tmo=list(tmo), cost=cost, lat=lat,
                                         seed=seed, id0=(k * 977) & 0xFFFF, max_execs=20000)], b))
     # the origin's queue is full of unread frames (its NETWORK_ACK must be seen all the same), and a connected mesh node as origin
@@ -399,27 +405,29 @@ def build_items(tier, seed):
             for pre in (None, 10, 70):
                 k += 1
                 items.append(([dict(src=s, dst=d, mtype=t, mlen=(k * 5) % 25, tmo=list(TIMEOUTS[k % 2]), cost=0, lat=0, seed=seed, id0=(k * 977) & 0xFFFF,
-                                    max_execs=20000, mesh=[s], pre_type=pre)], 1 if tier == "quick" else 2))
+                                    max_execs=20000, mesh=[s], pre_type=pre)], 3 if deep else 2))
     # one header object used twice (same frame id): the second message's fate is explored after an acknowledged first one
     for (s, d) in ((O("1"), O("2")), (O("11"), O("2")), (O("0"), O("11"))):
         for t in (65, 127, 1):
             k += 1
             items.append(([dict(src=s, dst=d, mtype=t, mlen=(k * 5) % 25, tmo=list(TIMEOUTS[0]), cost=0, lat=0, seed=seed, id0=(k * 977) & 0xFFFF,
-                                max_execs=20000, same_header=True)], 1 if tier == "quick" else 2))
+                                max_execs=20000, same_header=True)], 3 if deep else 2))
     # third fault kind: every hardware ACK of a frame hop lost (frame delivered, its sender sees a failure)
     for (s, d) in ROUTES:
         hops = len(N.tree_path(s, d)) - 1
         for tmo in (TIMEOUTS[:1] if tier == "quick" else TIMEOUTS[:2]):
             for t in ((65, 1) if tier == "quick" else (65, 127, 1, 191, 192)):
                 k += 1
-                b = 1 if tier == "quick" else (2 if hops <= 6 else 1)
+                b = 2 if hops <= 6 else 1
+                if deep:
+                    b = 3 if hops <= 3 else 2
                 items.append(([dict(src=s, dst=d, mtype=t, mlen=(k * 5) % 25, tmo=list(tmo), cost=0, lat=0, seed=seed, id0=(k * 977) & 0xFFFF,
                                     max_execs=20000, ack_faults=True)], b))
     # all 256 types on a 2-hop route (loss-free + every single failure point; thorough: + pairs, 2 more routes)
     for (s, d) in ((O("1"), O("2")),) + (((O("11"), O("0")), (O("0"), O("22"))) if tier == "thorough" else ()):
         for t0 in range(0, 256, 8):
             items.append(([dict(src=s, dst=d, mtype=t, mlen=t % 25, tmo=[25, 75], cost=0, lat=0, seed=seed, id0=t * 3) for t in range(t0, t0 + 8)],
-                          1 if tier == "quick" else 2))
+                          3 if deep else 2))
     # the route_timeout window starts when the first hop ACCEPTED the frame: sweep route_timeout against
     # a first hop that only answers after 20 ms (of tx_timeout 25) and slow relays (10 ms poll latency)
     for (s, d) in ((O("1"), O("2")), (O("11"), O("2"))):
@@ -431,12 +439,12 @@ def build_items(tier, seed):
     for start in (0, 2, 5, 10, 20, 40):
         for first, second in ((O("1"), O("11")), (O("11"), O("1"))):
             items.append(([dict(senders=[[first, O("2"), 66, 0], [second, O("2"), 67, start]], tmo=[25, 75], cost=0, lat=0, seed=seed, id0=start)],
-                          1 if tier == "quick" else 2))
+                          3 if deep else 2))
     # (the same with multicasting switched off on the node the foreign NETWORK_ACK is routed through)
     for start in (0, 2, 5, 10, 20, 40):
         for first, second in ((O("1"), O("11")), (O("11"), O("1"))):
             items.append(([dict(senders=[[first, O("2"), 66, 0], [second, O("2"), 67, start]], tmo=[25, 75], cost=0, lat=0, seed=seed, id0=start,
-                                nomc=[O("1")] if start % 4 else [O("1"), O("11"), O("0")])], 1 if tier == "quick" else 2))
+                                nomc=[O("1")] if start % 4 else [O("1"), O("11"), O("0")])], 3 if deep else 2))
     # ... and a message FOR the waiting origin arrives right behind its NETWORK_ACK (both forwarded by the common relay 0o1)
     for start in ([0, 1, 2, 3, 4, 5, 6, 8, 10] if tier == "quick" else list(range(0, 16))):
         for lat in (0, 1, 2):
@@ -471,10 +479,11 @@ def run(tier, seed, rep, only=None):
         level="fault_enumeration",
         exhaustive=True,
         rule="per frame hop (one node transmitting one network frame to its next hop, all its radio-level retransmissions included) the environment "
-             "chooses delivered / lost for good (/ delivered but all its hardware ACKs lost, in the ack_faults cases); the loss-free execution plus EVERY single failure point (thorough: every pair on routes <= 4 hops) of "
+             "chooses delivered / lost for good (/ delivered but all its hardware ACKs lost, in the ack_faults cases); the loss-free execution plus EVERY set of failure points up to the stated size of "
              "each (route, type, timeout setting) case is executed with all nodes running the real code. Non-trivial = distinct (case, failure set).",
         bounds=dict(routes=["%o->%o" % r for r in ROUTES], timeouts=[list(t) for t in TIMEOUTS], all_256_types_on="1->2 (2 hops)",
-                    failure_points_per_execution="2 on routes <= 4 hops, 1 elsewhere and in the ack_faults / all-types parts" if tier == "quick" else "3 on routes <= 3 hops, 2 elsewhere (1 on 8-hop routes in the non-default timing classes)"),
+                    failure_points_per_execution="3 on routes <= 3 hops, 2 elsewhere (1 on 8-hop routes in the non-default timing classes); 2 in the ack_faults / all-types / cross / same-header parts" if tier == "quick" else
+                    "4 on routes <= 3 hops, 3 elsewhere in the default timing class (3 / 2 in the others); 3 in the all-types / cross / same-header parts, 3 / 2 in the ack_faults part"),
         trusted_base=["vf/sim.py", "vf/net.py"],
         assumptions=["cross-traffic part (two origins, the second one's NETWORK_ACK routed through the first): only the safety clause True => own NETWORK_ACK arrived, exceptions and termination are judged",
                      "a lost frame hop stays lost (every retransmission of that frame by that node is dropped); in the ack_faults cases the environment may instead drop every hardware ACK of a frame hop "
